@@ -14,7 +14,7 @@ DECIDES = ('V1h: every _handle_* optimisation handler names an existing builtin 
            'HARG: every args[k] read in a handler is admitted by its length guards (no IndexError in the compiler); '
            'TRN2: integer parameters of optimised str/bytes methods are injected according to their documented role (None is the default only for slice bounds), TRN2b: injection helpers append a default only when the argument is absent; '
            'USCORE: no text accepted by a `_`-stripping copy loop of the optimised float() (and complete for PyOS_string_to_double after stripping) has an underscore next to '
-           '`_`, `.`, `e`, `E` or at the end — exactly the texts for which CPython raises ValueError (the exponent-sign row is FINDING_1, pending); '
+           '`_`, `.`, `e`, `E` or at the end — exactly the texts for which CPython raises ValueError (the exponent-sign rows and the non-ASCII copy loop were defects, repaired: rule C13-USCORE-PENDING keeps guarding them); '
            'NONEARG: for every call site of an argument-injection helper: where a literal None selects the default a run-time None does too, the C value stored for the '
            'run-time None equals the statically injected default, survives the consumer\'s own presence test (truthiness vs `is not None`), and the consumer\'s C '
            'conditional selects it exactly when the argument is None.')
@@ -49,4 +49,4 @@ def run(ctx):
     # sC13.rule_uscore(ctx, pending=True) checks the constructs of FINDING_1 (float("1e+_5"), the non-ASCII copy loop)     # pending finding
     return [handlers.rule_V1h(ctx), typed.rule_I3(ctx), typed.rule_I4(ctx), iface.rule_I5(ctx), iface.rule_I6(ctx),
             handlers.rule_arg_guards(ctx), trn.rule_TRN2(ctx), trn.rule_TRN2b(ctx),
-            sC13.rule_uscore(ctx), sC13.rule_nonearg(ctx)]
+            sC13.rule_uscore(ctx), sC13.rule_uscore(ctx, pending=True), sC13.rule_nonearg(ctx)]
